@@ -75,6 +75,7 @@ type PathResult struct {
 	Steps          int
 	NDecisions     int
 	Sample         *Candidate // concrete witness of this path (for samples / trace validation)
+	Unsupp         *Candidate // concrete inputs of a path the engine could not follow
 	PanicStack     []string
 }
 
@@ -180,6 +181,7 @@ type HarnessRun struct {
 	Cands      map[string][]*Candidate // class -> examples (bounded)
 	CandCount  map[string]int
 	Samples    []*Candidate
+	UnsuppSamples []*Candidate
 	Unsupp     map[string]int
 	GlobalSt   map[string]int
 	Transitions int64
@@ -237,6 +239,9 @@ func (r *HarnessRun) absorb(p *PathResult, seed int64) {
 			r.Cands[k] = append(r.Cands[k], c)
 		}
 	}
+	if p.Unsupp != nil && len(r.UnsuppSamples) < 24 {
+		r.UnsuppSamples = append(r.UnsuppSamples, p.Unsupp)
+	}
 	if p.Sample != nil {
 		// reservoir of samples: keep the first few and then every k-th path
 		if len(r.Samples) < 8 || (r.NPaths%r.sampleEvery == int(seed%int64(r.sampleEvery))) {
@@ -266,7 +271,7 @@ func (pg *Program) harness(name string) *ssa.Function {
 
 func newEngine(pg *Program, timeoutMS int) *Engine {
 	e := &Engine{prog: pg.prog, sizes: types.SizesFor("gc", "amd64"), globals: map[*ssa.Global]*Cell{}, fns: map[*ssa.Function]*fnInfo{},
-		tf: NewTermFactory(), z: NewSolver(timeoutMS), known: map[*Term]bool{}, consts: map[*ssa.Const]Val{}, funcsSeen: map[string]bool{}, stubsSeen: map[string]bool{}, varSeen: map[string]int{}}
+		tf: NewTermFactory(), z: NewSolver(timeoutMS), known: map[*Term]bool{}, consts: map[*ssa.Const]Val{}, syncSide: map[*Cell]*Cell{}, funcsSeen: map[string]bool{}, stubsSeen: map[string]bool{}, varSeen: map[string]int{}}
 	// package initialisers, concretely, best effort
 	e.inInit = true
 	e.maxSteps = 50_000_000
@@ -314,6 +319,11 @@ func (e *Engine) runPath(run *HarnessRun, item workItem) *PathResult {
 	e.stack = e.stack[:0]
 	e.sp = 0
 	e.cellSeq, e.goPhase, e.goBarrier = 0, 0, 0
+	for c := range e.syncSide {
+		if c.epoch != 0 {
+			delete(e.syncSide, c) // side state of path-local objects dies with the path
+		}
+	}
 	p := &PathResult{Status: "ok"}
 	e.path = p
 
@@ -353,6 +363,13 @@ func (e *Engine) runPath(run *HarnessRun, item workItem) *PathResult {
 	}
 	// paths whose observations depend on uninterpreted results (strconv.ParseFloat of
 	// a symbolic text) cannot be predicted by the engine: not used as validation traces
+	if p.Status == "unsupported" {
+		// the engine could not follow this path: its inputs are at least run natively
+		// (concrete fallback for this path only; counted separately in the evidence)
+		if m := e.ensureModel(); m != nil {
+			p.Unsupp = &Candidate{Harness: run.Name, Params: run.Params, Kind: "unsupported-sample", ID: p.Msg, Tags: p.Tags, Values: p.concreteValues(e, m)}
+		}
+	}
 	if (p.Status == "ok" || p.Status == "stop") && len(p.pfMemo) == 0 && !p.MapOrder {
 		if m := e.ensureModel(); m != nil {
 			p.Sample = &Candidate{Harness: run.Name, Params: run.Params, Kind: "sample", Tags: p.Tags, Values: p.concreteValues(e, m), Observed: p.predicted(e, m)}
